@@ -9,6 +9,7 @@ From Coq Require Import List ZArith Lia Bool.
 From RecordUpdate Require Import RecordSet.
 From Sim Require Import Map Variant Current Kernel Queue Net Pcap HttpParse SimState Sim Apps RegistryProofs HttpServerProofs.
 Import ListNotations.
+Import RecordSetNotations.
 Local Open Scope Z_scope.
 
 (* on_read executes the decision *)
@@ -19,7 +20,10 @@ Theorem C16_on_read_follows_the_decision :
     | HNeedMore => http_read srv w
     | HRespond len out close =>
         start_write_all cx (http_conn srv) out 65536 (hid_http srv (if close then 3 else 2)) (consume w srv len)
-    | HStall len => (consume w srv len, [])
+    | HStall len =>
+        if d31_http_stall_reads (cv cx)
+        then http_read srv (set_http (consume w srv len) srv (get_http (consume w srv len) srv <| hs_stalled := true |>))
+        else (consume w srv len, [])
     | HThrow len => http_close_connection cx srv (consume w srv len)
     | HBad => http_close_connection cx srv w
     end.
